@@ -32,7 +32,18 @@ type wCase struct {
 	Styles  []wStyle `json:"styles"`
 	Regions [][]int  `json:"regions"`
 	Meta    bool     `json:"meta"`
+	Scheme  int      `json:"-"` // naming scheme of the definitions (set by the driver from the case number)
 }
+
+// identifiers of styles: the order of byte-wise sorting, of case-insensitive sorting and of insertion all differ,
+// and one scheme holds the name SubStation Alpha treats specially
+var styleNames = [][]string{
+	{"s1", "s2", "s3", "s4", "s5", "s6"},
+	{"Default", "Alt", "Caption", "Bottom", "style_0", "Title"},
+	{"Zed", "default", "Main", "xtra", "A", "mid"},
+}
+
+func styleName(c wCase, i int) string { return styleNames[c.Scheme%len(styleNames)][i%6] }
 
 type wEvent struct {
 	N      int    `json:"n"`
@@ -86,11 +97,11 @@ func buildW(c wCase, r *rand.Rand) *astisub.Subtitles {
 		for _, l := range st.Css {
 			sa.WebVTTStyles = append(sa.WebVTTStyles, fmt.Sprintf("::cue(.s%d) { color: c%d }", i, l))
 		}
-		id := "s" + strconv.Itoa(i+1)
+		id := styleName(c, i)
 		s.Styles[id] = &astisub.Style{ID: id, InlineStyle: sa}
 	}
 	if len(c.Styles) > 1 {
-		s.Styles["s2"].Style = s.Styles["s1"]
+		s.Styles[styleName(c, 1)].Style = s.Styles[styleName(c, 0)]
 	}
 	rorder := r.Perm(len(c.Regions))
 	for _, i := range rorder {
@@ -108,7 +119,7 @@ func buildW(c wCase, r *rand.Rand) *astisub.Subtitles {
 		id := "r" + strconv.Itoa(i+1)
 		rg := &astisub.Region{ID: id, InlineStyle: sa}
 		if len(c.Styles) > 0 && i%2 == 0 {
-			rg.Style = s.Styles["s1"]
+			rg.Style = s.Styles[styleName(c, 0)]
 		}
 		s.Regions[id] = rg
 	}
@@ -120,8 +131,8 @@ func buildW(c wCase, r *rand.Rand) *astisub.Subtitles {
 			Lines: []astisub.Line{{VoiceName: "V", Items: []astisub.LineItem{{Text: "Hello"}, {Text: " world", InlineStyle: &astisub.StyleAttributes{SRTBold: true, STLItalics: bp2(true),
 				WebVTTTags: []astisub.WebVTTTag{{Name: "b"}}, SSAEffect: `{\i1}`}}}}, {Items: []astisub.LineItem{{Text: "second line"}}}}}
 		if len(c.Styles) > 0 {
-			it.Style = s.Styles["s"+strconv.Itoa(k%len(c.Styles)+1)]
-			it.Lines[0].Items[0].Style = s.Styles["s1"]
+			it.Style = s.Styles[styleName(c, k%len(c.Styles))]
+			it.Lines[0].Items[0].Style = s.Styles[styleName(c, 0)]
 		}
 		if len(c.Regions) > 0 {
 			it.Region = s.Regions["r"+strconv.Itoa(k%len(c.Regions)+1)]
@@ -207,6 +218,9 @@ func cmdWriters(args []string) error {
 		}
 		c.Meta = rr.Intn(2) == 0
 		cases = append(cases, c)
+	}
+	for i := range cases {
+		cases[i].Scheme = i % len(styleNames)
 	}
 	// the clock is injectable: fix it so that STL files without metadata dates are comparable at all
 	fixed := time.Date(2021, 2, 3, 4, 5, 6, 0, time.UTC)
